@@ -31,6 +31,9 @@ func c11KFStep(p []c10Decl, d *c10Decl, rp c10Impl) []string {
 	if c10LowerClash(all) {
 		kf = append(kf, "C11-dotted-capital-i-merged-by-graph")
 	}
+	if c10ZombieRisk(all) {
+		kf = append(kf, "C11-null-container-resurrected")
+	}
 	indexed := (d.Kind == c10Edge && d.Idx != nil) || d.Kind == c10EdgeAttr
 	if indexed && c10EdgeNullBefore(p, d) {
 		kf = append(kf, "C11-ir-index-after-delete")
